@@ -296,7 +296,11 @@ pub(crate) fn transform_text(text: &str) -> String {
     // CRLF yields an empty line between its two characters, which is dropped like any blank line
     let lines = text.split(['\r', '\n']).collect::<Vec<_>>();
     let is_blank = |line: &str| line.chars().all(|c| c == ' ' || c == '\t');
-    let last_non_blank = lines.iter().rposition(|line| !is_blank(line));
+    // like Babel's `lastNonEmptyLine`, this is line 0 when every line is blank
+    let last_non_blank = lines
+        .iter()
+        .rposition(|line| !is_blank(line))
+        .unwrap_or(0);
 
     let mut cleaned = String::with_capacity(text.len());
     let mut lines = lines.into_iter().enumerate().peekable();
@@ -311,7 +315,7 @@ pub(crate) fn transform_text(text: &str) -> String {
         }
         if !line.is_empty() {
             cleaned.push_str(line);
-            if Some(index) != last_non_blank {
+            if index != last_non_blank {
                 cleaned.push(' ');
             }
         }
